@@ -3,31 +3,50 @@ import os
 from vf.common import Harness, dump_image
 
 LEVEL = "model_checking"
-TECHNIQUE = "CBMC 2-safety harness over the real whole scan (scanner.c/scan.c/exec.c on a compiled image): uninterrupted run vs run with a nondeterministic not-ready schedule"
-ASSUMPTIONS = ["data <= 5 bytes, 1..3 contiguous blocks at symbolic cut points, <= 3 not-ready answers",
+TECHNIQUE = "CBMC 2-safety harness over the real whole scan (scanner.c/scan.c/exec.c on a compiled image): uninterrupted run vs run interrupted by not-ready answers, data and block partition symbolic"
+ASSUMPTIONS = ["data <= 4 bytes (5 thorough), 1..3 contiguous blocks at symbolic cut points; the number of blocks and the not-ready schedule (which iterator calls answer not-ready) are enumerated at harness level",
                "the rule is evaluated unconditionally (no_required_strings bit set by the harness) so that the VM's ip stays concrete",
-               "file / fd / process entry points are I/O and outside; yr_scanner_scan_mem's single-block iterator is checked in H2"]
-LEVEL_TEXT = "Bounded model checking of run equivalence (2-safety) for every buffer, block partition and not-ready schedule in the bound."
+               "file / fd / process entry points are I/O and outside; they reach the same yr_scanner_scan_mem_blocks"]
+LEVEL_TEXT = "Bounded model checking of run equivalence (2-safety) for every buffer and block partition in the bound, per enumerated not-ready schedule."
 LEVEL_NOTE = "; ".join(ASSUMPTIONS)
 
 
-def nr_h(name, cond, N, nstr_rule='$a = "ab"'):
+def popcount(x):
+    return bin(x).count("1")
+
+
+def nr_h(name, cond, N, nblocks, sched, nstr_rule='$a = "ab"'):
     rule = "rule r { strings: %s condition: %s }\n" % (nstr_rule, cond)
 
     def gen(ctx, outdir):
         dump_image(ctx, outdir, "IMG_", rule, fname="img_img.h")
-    return Harness(name="H1_notready_" + name, src="c13/notready.c", defines=["-DVF_N=%d" % N], unwind=N + 3, gen=gen, timeout=1200,
+    return Harness(name="H1_notready_%s_b%d_s%02x" % (name, nblocks, sched), src="c13/notready.c",
+                   defines=["-DVF_N=%d" % N, "-DVF_NBLOCKS_C=%d" % nblocks, "-DVF_SCHED=0x%x" % sched, "-DVF_MAX_NOTREADY=%d" % popcount(sched)],
+                   unwind=N + 3, gen=gen, timeout=1500,
                    unwind_funcs={"vf_init_tables": 257, "yr_execute_code": 16, "main": 6, "vf_trace_eq": 9, "yr_arena_ptr_to_ref": 4, "memcmp": 9},
                    flags=["--object-bits", "10"],
-                   desc="whole scan, uninterrupted vs not-ready schedule, rule: " + rule.strip(),
-                   bounds="data <= %d bytes, <= 3 blocks, <= 3 not-ready answers" % N,
+                   desc="whole scan, uninterrupted vs not-ready at iterator calls %s, %d block(s), rule: %s" % ([k for k in range(8) if (sched >> k) & 1], nblocks, rule.strip()),
+                   bounds="data <= %d bytes (bytes, length, cut points symbolic); block count and schedule enumerated" % N,
                    functions=["yr_scanner_scan_mem_blocks", "_yr_scanner_scan_mem_block", "yr_scan_verify_match", "yr_execute_code", "_yr_scanner_clean_matches"],
-                   stubs=["notebook->malloc", "config", "clock", "yr_modules_unload_all"])
+                   stubs=["notebook->malloc", "config", "clock", "yr_modules_unload_all", "TLS"])
+
+
+def schedules(nblocks, max_nr):
+    calls = nblocks + max_nr
+    return [s for s in range(1, 1 << calls) if popcount(s) <= max_nr]
 
 
 def harnesses(ctx, tier):
-    N = 5
-    hs = [nr_h("found", "$a", N), nr_h("count", "#a == 2", N)]
+    N = 5 if tier == "thorough" else 4
+    hs = []
+    if tier == "quick":
+        combos = [(1, 0x1), (2, 0x1), (2, 0x2), (2, 0x3), (3, 0x4)]
+    else:
+        combos = [(nb, s) for nb in (1, 2, 3) for s in schedules(nb, 2)]
+    for nb, s in combos:
+        hs.append(nr_h("found", "$a", N, nb, s))
+    hs.append(nr_h("count", "#a == 2", N, 2, 0x2))
     if tier == "thorough":
-        hs += [nr_h("offset", "@a[1] == 2", N), nr_h("uint8", "$a and uint8(1) == 0x62", N)]
+        hs.append(nr_h("offset", "@a[1] == 2", N, 2, 0x2))
+        hs.append(nr_h("uint8", "$a and uint8(1) == 0x62", N, 2, 0x2))
     return hs
